@@ -45,8 +45,8 @@ def render_graph(g):
             objs.append("ODict %s 0 %s" % (fr, clist(["(%s, %s)" % (cval(es[i]), cval(es[i + 1])) for i in range(0, len(es), 2)])))
         elif k == "tuple":
             objs.append("OTuple %s" % cvals(es))
-        elif k == "struct":
-            objs.append("OStruct false %s" % clist(["(%d, %s)" % (i, cval(v)) for i, v in enumerate(es)]))
+        elif k in ("struct", "ssum"):
+            objs.append("OStruct %s %s" % (fr, clist(["(%d, %s)" % (i, cval(v)) for i, v in enumerate(es)])))
         elif k == "func":
             objs.append("OFunc false %s %s 0" % (cvals(nd.get("defaults")), clist(["(VRef %d)" % cell_of[c] for c in nd.get("captures") or []])))
         elif k == "bound":
@@ -178,6 +178,11 @@ def run(ctx):
         if g.get("storm"):
             ctx.finding("frozen-value-mutable:sequence", "module #%d: after applying every operation in sequence to the objects that must be immutable, %s" % (g["i"], g["storm"]),
                         {"graph": g["i"], "module": g["src"], "what": g["storm"]})
+        for al in g.get("alias") or []:
+            ctx.finding("derived-value-aliases-%s-original:%s:%s" % ("frozen" if al["frozen"] else "mutable", al["kind"], al["how"]),
+                        "module #%d: %s node %d (%s) changed from %s to %s when the value computed from it by `%s` was mutated (%s)" % (
+                            g["i"], al["kind"], al["node"], "must be immutable" if al["frozen"] else "mutable", al["before"], al["after"], al["how"], al["mut"]),
+                        {"graph": g["i"], "module": g["src"], "node": al["node"], "derive": al["how"], "mutate_derived": al["mut"], "before": al["before"], "after": al["after"]})
         for x in g.get("read_viol") or []:
             ctx.finding("read-changes-state", "module #%d: %s" % (g["i"], x), {"graph": g["i"], "module": g["src"]})
         if set(g.get("walk") or []) != set(g.get("reach") or []):
@@ -260,6 +265,7 @@ Definition s_ok (c : (nat * probe) + (nat * nat * list nat)) : bool :=
         "distribution": dist, "coq_cases": ncases, "model_mismatches": bad_model_total, "spec_mismatches": bad_spec_total,
         "graphs": len(graphs), "child_failures": len(recs) - len(graphs), "nested_scenarios": nnested,
         "sequence_ops": sum(g.get("storm_ops", 0) for g in graphs),
+        "derived_value_mutations": sum(g.get("derived", 0) for g in graphs),
     }
     return ctx.finish(LEVEL, cov, assumptions=[
         "objects are identified through a host-side registry (reg(id, v)); atoms are small integers; keys and compared operands of probes are integer atoms",
